@@ -104,10 +104,18 @@ def warn_mode(cfg, b):
         if r.err is None and not depleted:
             checks.append(("tiling-reaches-the-end-of-the-input", cursor == n))
     # (3) value-only problems: lenient field-by-field interpretation
-    if warns and all(k == "Value" for k in kinds) and r.err is None:
+    # whether "the only problems are out-of-range values" is decided by the reference interpretation (lenient
+    # about values, strict about structure), not by the warnings the decoder chose to emit
+    if cfg["type"].startswith("harness.synth:"):
+        from .synth import layout as _syn_layout
+
+        ref = RefDec(_syn_layout(), b, lenient_values=True)
+    else:
         ref = RefDec(pinned_layout(), b, lenient_values=True)
-        rev, out = ref.run(cfg["type"], cc=cc, enc=enc)
-        if out[0] == "OK":
+    rev, out = ref.run(cfg["type"], cc=cc, enc=enc)
+    if out[0] == "OK" and ref.value_warnings and r.err is None:
+        checks.append(("value-only-input-yields-only-value-warnings", all(k == "Value" for k in kinds)))
+        if all(k == "Value" for k in kinds):
             note("value-only")
             real = [e for e in events if isinstance(e, MarshalEvent)]
             checks.append(("value-only-event-count", len(real) == len(rev)))
@@ -163,10 +171,13 @@ def partitions(tier, seed):
             lab = "%s-%s" % (sp.cc_name(cc), label)
             parts.extend(size_variants(P, "C08", sp.cmd_key(), lab, data, tr))
             parts.append(sp.M(P, "C08", sp.cmd_key(), lab + "/values", data, sp.free_positions(tr), budget=40))
+            # the tag (it decides whether a session area follows) over all 65536 values
+            parts.append(sp.M(P, "C08", sp.cmd_key(), lab + "/tag", data, [0, 1], budget=45))
         for label, enc, data in G.responses(cc, minimal=quick):
             tr = sp.trace_of(sp.rsp_key(), data, cc=cc, enc=enc)
             lab = "%s-%s" % (sp.cc_name(cc), label)
             cfg = {"cc": cc, "enc": enc}
             parts.extend(size_variants(P, "C08", sp.rsp_key(), lab, data, tr, cfg=cfg))
             parts.append(sp.M(P, "C08", sp.rsp_key(), lab + "/values", data, sp.free_positions(tr), budget=40, cfg=cfg))
+            parts.append(sp.M(P, "C08", sp.rsp_key(), lab + "/tag", data, [0, 1], budget=45, cfg=cfg))
     return parts
